@@ -333,7 +333,7 @@ pub fn directed() -> Vec<Doc> {
                     kind: IndexKind::Both,
                     entries: vec![
                         ent("chara/a/std.bin", 0, EntryKind::Standard { blocks: vec![b(600, Mode::Miniz(6)), b(300, Mode::Raw), b(200, Mode::Fixed)], fill: 5 }),
-                        ent("chara/a/tex.tex", 0, EntryKind::Texture { header_len: 80, mips: vec![vec![b(512, Mode::Miniz(6)), b(128, Mode::Raw)], vec![b(64, Mode::Stored)]], fill: 9 }),
+                        ent("chara/a/tex.tex", 0, EntryKind::Texture { header_len: 80, mips: vec![vec![b(512, Mode::Miniz(6)), b(128, Mode::Raw)], vec![b(64, Mode::Stored)]], fill: 9, layout: 0 }),
                         ent(
                             "chara/a/mdl.mdl",
                             1,
@@ -399,6 +399,43 @@ pub fn directed() -> Vec<Doc> {
                     steps.extend(all_queries(50));
                     steps.push(Step::IndexOpen { id: 99, file: path.clone() });
                 }
+                push(steps, vec![], &mut out);
+            }
+        }
+        // two fields of one structure damaged together (a consistent-looking pair passes checks
+        // that compare one field with the other): both set to the same large value
+        let prefix_of = |n: &str| n.rfind('.').map(|p| n[..p].to_string()).unwrap_or_default();
+        for (i, f1) in fields.iter().enumerate() {
+            for f2 in fields.iter().skip(i + 1) {
+                if prefix_of(&f1.name) != prefix_of(&f2.name) || f1.width < 2 || f2.width < 2 {
+                    continue;
+                }
+                for v in [0x1_0000u64, 0x7FF_FFFF] {
+                    let fit = |f: &Field| if f.width >= 4 { v } else { v.min(0xFFFF) >> 1 };
+                    let mut steps = vec![Step::Query { id: 100, kind: QKind::Exists, path: "chara/a/std.bin".into() }];
+                    for f in [f1, f2] {
+                        steps.push(Step::Damage { file: path.clone(), damage: Damage::Field { name: f.name.clone(), off: f.off, width: f.width, be: f.be, value: fit(f) } });
+                    }
+                    steps.extend(all_queries(0));
+                    push(steps, vec![], &mut out);
+                }
+            }
+        }
+        // a block header claiming the largest deflated block the format allows (31999 bytes)
+        // and the largest expansion deflate can produce (1032:1), with the payload cut short
+        for f1 in fields.iter().filter(|f| f.name.ends_with("blk.stored_len")) {
+            let Some(f2) = fields.iter().find(|f| f.off == f1.off + 4 && f.name.ends_with("blk.raw_len")) else { continue };
+            for cut in [None, Some(f2.off + 8), Some(f2.off + 4 + 128)] {
+                let mut steps = vec![Step::Query { id: 100, kind: QKind::Exists, path: "chara/a/std.bin".into() }];
+                for (f, v) in [(f1, 31_999u64), (f2, 31_999 * 1032)] {
+                    steps.push(Step::Damage { file: path.clone(), damage: Damage::Field { name: f.name.clone(), off: f.off, width: f.width, be: f.be, value: v } });
+                }
+                if let Some(at) = cut {
+                    if at < bytes.len() {
+                        steps.push(Step::Damage { file: path.clone(), damage: Damage::Truncate { at } });
+                    }
+                }
+                steps.extend(all_queries(0));
                 push(steps, vec![], &mut out);
             }
         }
